@@ -44,6 +44,45 @@ S = {
  "C06B": "dotted tag a.x declared before a struct field a (PathSep): the struct's contents vanish",
  "C09A": "a second kind of conflict error inside the unsorted loop of normalizeMergeInto: error kind depends on map order",
  "C09B": "sortedKeys skips sorting for dictionaries of exactly two entries",
+ "C01C": "mergeConfig returns early when source and target are the same config: c.Merge(c, AppendValues/PrependValues) no longer doubles the lists",
+ "C01D": "default list merge skips nil entries of B (a nil no longer replaces a primitive at the same index); same trigger as C01A, other code",
+ "C02C": "operator expansions (:, :+, :?) split the variable name with the READ-time PathSep instead of the build-time one",
+ "C02D": "cfgSub.cpy gives copied list elements the parent of the source list: references inside list elements resolve against a stale root",
+ "C03C": "numbers reaching a time.Duration through ${ref} / splice / default are converted without the range check",
+ "C03D": "'same kind' fast path in doReifyPrimitive copies a signed-integer setting into a Duration as nanoseconds",
+ "C04C": "reifyDoArray starts at `start`: kept defaults in front of appended elements are not validated (same trigger as C04A)",
+ "C04D": "validator tags of an inline slice / array field are dropped (routed through reifyInto)",
+ "C05C": "normalizeSetField reordered: a path holding a nil placeholder that later receives its value is a duplicate key (lists of 11+ dotted entries, descending struct tags)",
+ "C05D": "chaseValue composed of the two helpers: *interface{} chains are no longer unwrapped",
+ "C06C": "reifyValue returns a reified slice without pointerizing: []*[]T / map[string]*[]T elements panic on Unpack",
+ "C06D": "float32 stored via its shortest decimal: +-MaxFloat32 no longer round-trips (overflow on Unpack)",
+ "C07C": "parseSplice no longer drains the lexer: a parse error after an empty expansion leaks the lexer goroutine (\"${}${a}\")",
+ "C07D": "EscapePath pre-check indexes in[0]: the empty key / a computed name evaluating to \"\" panics with PathSep + EscapePath",
+ "C08C": "failed evaluations cached per call (variant of C08A): an absorbed cyclic error resurfaces at a later plain use in the same Unpack",
+ "C08D": "a reference is registered as being evaluated only after its path has been looked up: cycles through dotted paths overflow the stack",
+ "C09C": "normalizeMapInto sorts reflect keys by Value.String(): constant for interface-keyed maps, so YAML-shaped inputs are visited in map order",
+ "C09D": "sortedMapKeys sorts keys by a parallel names slice that is not permuted: mis-sorted for 3+ entries",
+ "C10C": "normalizeValue copies an embedded *Config only when it is a root: a child handle in a slice next to a dotted key is written to",
+ "C10D": "mergeConfigDict re-attaches instead of copying when the destination held a primitive where the source has an object: shared subtree",
+ "C11C": "expansionSingle.eval stores the first reader's PathSep in the shared evaluator (write during reads, sticky separator)",
+ "C11D": "Merge(..., MetaData(m)) labels the SOURCE config's own settings",
+ "C12C": "Has fast path uses HasField on the unsplit name: a literal key \"a.b\" answers Has(\"a.b\", PathSep) although no such path exists",
+ "C12D": "fields.delAt copies the elements it shifts down: handles behind a removed element are detached (variant of C12B)",
+ "C13C": "reifyStruct stores the struct before its own Validate() runs: a failing top-level Validate leaves the target modified",
+ "C13D": "a `merge` tag no longer resets the handling for lists nested below the tagged field",
+ "C14C": "PrependValues keeps old entries without renumbering: errors in moved entries name another index",
+ "C14D": "unpackWith no longer wraps errors that already are ucfg.Errors: path and source lost for Unpack(interface{}) types",
+ "C15C": "fields.append moves elements that already belong to the list: a self merge with append/prepend stores the same nodes twice with stale indices",
+ "C15D": "setContextField simplified to value.SetContext (a no-op for attached sub-configs): Remove does not renumber objects/lists",
+ "C16C": "fieldOptsLookup returns the parent options when the field's policy equals the one in force: the handling tree is not descended",
+ "C16D": "per-index options stick to all later list elements (idxOpts never reset)",
+ "C17D": "IgnoreCommas moved into the unquoted-string scanner: commas inside arrays/objects stop separating unquoted primitives",
+ "C18C": "objects created for dotted keys lose their metadata (self-assignment after reordering)",
+ "C18D": "cfgInt/cfgUint accept 0/1 as bool, cfgFloat does not: YAML and JSON disagree on {enabled: 1}",
+ "C19C": "flag values that parse to nil (null, [], {}, blanks) are dropped like the empty value",
+ "C19D": "NewCollector copies its options into a zero-length slice: merge policies of the flag are lost",
+ "C20C": "MaxIdx default applied 'if zero' after the options ran: MaxIdx(0) silently becomes 1024",
+ "C20D": "expansionAlt passes EscapePath where EnableNumKeys belongs: ${5:+x} decides index-vs-name by the wrong option",
 }
 
 rows = []
